@@ -310,7 +310,7 @@ impl OpGen {
                 ev.j = if rng.random_range(0..3) == 0 { rng.random_range(0..(n + 1)) as i64 } else { -1 };
             }
             "par_iter" | "par_drain" | "into_par_iter" => {
-                ev.n = if name == "par_iter" { rng.random_range(0..5) } else { rng.random_range(0..2) };
+                ev.n = if name == "par_iter" { rng.random_range(0..5) } else { rng.random_range(0..3) };
                 ev.j = [1i64, 2, 3, 8, 64][rng.random_range(0..5)];
             }
             "par_extend" => {
